@@ -11,13 +11,16 @@ for n in sorted(os.listdir(ROOT)):
     d = m.get("detected_by", {})
     first = " / ".join(d.get("first_lines", [])[1:2] or d.get("first_lines", [])[:1])
     first = first.replace("|", "\\|")[:160]
+    if not d.get("detected") and m.get("note"):
+        first = m["note"].replace("|", "\\|")
     rows.append((n, m["property"], m.get("summary", "").replace("|", "\\|")[:170], m.get("needs", "").replace("|", "\\|")[:150],
                  "yes" if d.get("detected") else ("?" if not d else "NO"), first))
 with open(os.path.join(ROOT, "INDEX.md"), "w") as f:
     f.write("# Seeded changes and the checks that catch them\n\n")
     f.write("Each change was written by an independent sub-agent that saw only the property text, was confirmed in a fresh scratch\n"
-            "worktree (builds, unedited suite passes, demonstration fails with / passes without), and is caught by `./check <ID> --tier quick`\n"
-            "when applied to /repo (`tools/detect_seeds.py`; /repo is restored straight afterwards).\n\n")
+            "worktree (builds, unedited suite passes, demonstration fails with / passes without).  The last columns record what\n"
+            "`./check <ID> --tier quick` does when the change is applied to /repo (`tools/detect_seeds.py`; /repo is restored straight\n"
+            "afterwards); the changes marked NO are not reported by design, for the reason given (DESIGN 10.5).\n\n")
     f.write("| seed | property | change | needs | caught | first witness line |\n|---|---|---|---|---|---|\n")
     for r in rows:
         f.write("| " + " | ".join(r) + " |\n")
